@@ -83,7 +83,7 @@ def lemma(res, name, build, detail='', timeout_ms=20000, decisive=False):
     return o
 
 
-def monitor(res, ctx, module, timeout=1500):
+def monitor(res, ctx, module, timeout=1500, drop=None):
     """Run the native bounded monitor pv/nat/<module>.py (function run(tier, seed)); each returned check becomes a
     Bounded (K4: never counted as proved)."""
     t0 = time.time()
@@ -91,6 +91,12 @@ def monitor(res, ctx, module, timeout=1500):
     checks = r['checks'] if isinstance(r, dict) and 'checks' in r else [r]
     out = []
     for c in checks:
+        if drop and c['name'] in drop:
+            res.notes.append(f"bounded check {c['name']} is not part of this property's verdict: {drop[c['name']]}")
+            continue
+        if drop:
+            # failure keys that are outside the statement (documented false alarms of the monitor, DESIGN 0.5)
+            c['failures'] = [f for f in c.get('failures', []) if f.get('key') not in drop]
         b = Bounded(c['name'], bound=c['bound'], evaluations=int(c.get('evaluations', 0)),
                     distinct_nontrivial=int(c.get('distinct_nontrivial', 0)), rule=c.get('rule', ''),
                     failures=list(c.get('failures', [])), samples=list(c.get('samples', []))[:3],
@@ -138,13 +144,13 @@ def shape(res, name, target, predicate, detail, decisive=False):
     return o
 
 
-def monitor_if_present(res, ctx, module, timeout=1500):
+def monitor_if_present(res, ctx, module, timeout=1500, drop=None):
     import os
     from . import VERIF
     if not os.path.exists(os.path.join(VERIF, 'pv', 'nat', module + '.py')):
         res.notes.append(f'bounded monitor {module} is not present')
         return []
-    return monitor(res, ctx, module, timeout)
+    return monitor(res, ctx, module, timeout, drop)
 
 
 def conformance(res, modname, cases):
